@@ -63,8 +63,9 @@ RuleSets == CASE Profile = "h" -> {{"mode", "pass", "split", "match", "words", "
                            {"mode"}, {"matchno", "split"}, {"match", "splitnd"}, {}}
 OptionSets == IF Profile = "h" THEN {<<>>}
               ELSE {<<>>, <<Tok("-D", "IMPL=1", <<>>, <<>>)>>, <<T0("-fmode")>>, <<Tok("-D", "IMPL=1", <<>>, <<>>), T0("-fpass")>>}
-Names == IF Profile = "h" THEN <<"c1", "c2">> ELSE <<"c1", "c2", "c3", "c4">>
-AliasTargets == IF Profile = "h" THEN {"c1"} ELSE {"c1", "c2", "c3", "c4", "ghost"}
+\* (names as drivers are really called: versioned, with dots and plus signs; the whole base name of argv[0] counts)
+Names == IF Profile = "h" THEN <<"c1", "c2-13.2">> ELSE <<"c1", "c2-13.2", "c3.real", "c4++">>
+AliasTargets == IF Profile = "h" THEN {"c1"} ELSE {"c1", "c2-13.2", "c3.real", "c4++", "ghost"}
 TokNames == IF Profile = "h" THEN {"a80", "a7580", "g75", "tab", "tb", "pass"} ELSE IF Profile = "q" THEN {"pinc", "mode", "pass", "def", "tab", "tb", "a80", "a7580", "g80", "g75", "w", "du", "unk", "ob", "passbad"}
             ELSE DOMAIN Toks
 MaxArgs == IF Profile = "h" THEN 1 ELSE 2
